@@ -61,3 +61,26 @@ CHECKS["C03"] = dict(
  text="For ALL shots N>=1 and all frequencies k/N: the real statements `current_shots = int(branch.frequency*shots)`, `subbranch.frequency *= branch.frequency`, and the multiplicity expressions of Result.samples/get_counts establish their exact-arithmetic post-conditions (discharged by z3); the branch loop has the contracted structure (outcome concatenation, unchanged branch when the condition is false, all and only the step's branches added, start from one branch of frequency 1, step frequencies built as Fraction(k, shots)). The lifting to the branch-tree invariant (sum = 1, k/N, N samples) is a stated induction, and is additionally evaluated as a run-time contract on adaptive programs; the shots=None sentences are bounded only (one known finding on the passive simulator, one defect fixed: get_counts).",
  note="induction over branches/instructions not mechanised; STEP contract of each measurement step checked structurally and at run time, not proved; floats for shots=None",
 )
+ENGINES[0]["serves_properties"] = ["C07", "C08", "C14", "C16", "C20"]
+ENGINES[1]["serves_properties"] = ["C03", "C06", "C08", "C11", "C12", "C13", "C14", "C16", "C20"]
+ENGINES[2]["serves_properties"] = ["C03", "C06", "C13", "C14"]
+ENGINES[3]["serves_properties"] = ["C03", "C11", "C12", "C13", "C20"]
+ENGINES[4]["serves_properties"] = ["C06", "C08"]
+CHECKS["C08"] = dict(
+ engine="symtrace + lean-lemmas + rtc", category="proof", design_ref="DESIGN.md 5/C08",
+ technique="representation invariant and symplectic-form preservation as polynomial identities over the real Gaussian steps; Lean lemma for PSD congruence; validate()/norm/probability contracts at run time on every step as bounded stand-in",
+ text="For ALL parameters, states and hbar, every built-in linear gate step keeps C Hermitian, G symmetric and the xxpp covariance real symmetric (every ordered mode tuple at d=3), its xxpp matrix preserves the symplectic form, displacement leaves C and G, vacuum is hbar*I; with C07 (update = congruence) and the Lean lemma psd_congr the uncertainty relation is preserved by every built-in linear gate for all parameters. Fock/fermionic states, channels, measurements, purity/probability ranges: run-time contracts after every step on enumerated programs only.",
+ note="composition (C07 congruence + symplectic form + psd_congr + vacuum base => uncertainty relation for all programs) is a stated argument; floats as reals; bounded part covers Gaussian/pure Fock/general Fock, hbar in {0.5,2}(quick), cutoffs {3,5}",
+)
+CHECKS["C13"] = dict(
+ engine="pyvc (guard equivalence) + frames/cfg + rtc", category="proof", design_ref="DESIGN.md 5/C13",
+ technique="raise-guards extracted from the real AST proved equivalent to the rule of the statement by SMT; dominance of validation over evolution on the CFG; raise-type scan; single-fault mutations and acceptance runs as bounded stand-in",
+ text="Each structural rule (mode range, arity, repeated modes in Q and in the simulator's own validation, preparation order, mid-circuit measurement support, shots, shots=None support, initial-state type/d) has its raising guard proved equivalent to the rule for all integer/boolean values; on every path through execute_instructions the shots check, d inference and _validate_instructions dominate _do_execute_instructions, and every check visits all instructions; every raise before evolution is a PiquassoException subclass. One defect fixed (repeated modes bypassing Q), five known findings (ValueError x2, lazy parameter validation, cutoff <= 2 refused x2). Acceptance half bounded only.",
+ note="isinstance/any/_is_distinct are atoms of the guard equivalences; the acceptance half (valid programs never refused for every cutoff and branch) is total correctness of numeric code - bounded stand-in only",
+)
+CHECKS["C16"] = dict(
+ engine="symtrace + rtc", category="proof", design_ref="DESIGN.md 5/C16",
+ technique="relabelling equivariance and disjoint-gate commutation as polynomial identities over the real Gaussian and passive step functions (symbolic states/blocks/hbar); exhaustive bounded check of the mode bookkeeping helpers and numeric Fock relabelling",
+ text="For ALL states, blocks (also non-symplectic) and hbar: applying a block on pi(M) to the relabelled Gaussian state equals relabelling the result, for every permutation pi and ordered tuple M (d<=3 quick, d<=4 thorough), and two blocks on disjoint ordered tuples commute; the same for the passive simulator's interferometer accumulation. _remap_modes/_remap_modes_inverse/_delete_modes_from_active and the Fock simulators only by bounded stand-ins.",
+ note="shapes enumerated, arity <= 2; Fock index lists not under contract; outcome-tuple relabelling relies on C03's structural contracts",
+)
